@@ -19,6 +19,12 @@ Theorem fetch_installs_stored_version : forall (P : params) (ops : list opk) (sc
   exists v, c_dest L = DInst v /\ In v (stored (s_cl st)).
 Proof. exact fetch_installs_stored_version_l. Qed.
 Print Assumptions fetch_installs_stored_version.
+(* Cancellation / deadline of the caller's context inside a micro-step is covered by the same quantification: from then on
+   every context check fails, i.e. the current and every later micro-step of THAT client carries the fault FErr (the schedule
+   is arbitrary, so this fault pattern is among those quantified over); the client's deferred clean-ups (Rm with a background
+   context) still run, Unlock(ctx) fails (FErr at SUnlock / FUnlock: the lock is left behind and goes stale).  The harness
+   injects exactly this ("the context ends from inside the k-th backend operation", cancelled and timed out) at the
+   operations of Fetch, Store and CleanEntry. *)
 (* crash_then_fetch is the instance of this theorem in which the schedule gives some Store client the fault FCrash /
    FCrashShort at any of its steps (then possibly a CleanEntry client) and then runs a Fetch client: the Fetch either does not
    report success or has installed a complete version whose Store had begun (the interrupted one or an earlier one). *)
